@@ -354,6 +354,13 @@ func cmdCheck(args []string) int {
 		os.MkdirAll(filepath.Join(verifDir, "ledger"), 0o755)
 		os.WriteFile(filepath.Join(verifDir, "ledger", id+".json"), append(data, '\n'), 0o644)
 	}
+	if *tier == "thorough" && os.Getenv("PVC_NOSELFTEST") == "" && !*update {
+		// fixed findings must stay fixed: their replay tests (real inputs against the real code) run on the current tree
+		for _, l := range runFindingReplays(id) {
+			fmt.Println(l)
+			violations++
+		}
+	}
 	if *tier == "thorough" && violations == 0 && len(vac) == 0 && os.Getenv("PVC_NOSELFTEST") == "" && !*update {
 		selftest = runSelftest(id)
 	}
@@ -554,6 +561,7 @@ func writeEvidence(id, tier string, seed int, t0 time.Time, reports []oblReport,
 			"samples":                  samples,
 			"explanation":              cfg.Note,
 			"selftest_canaries":        selftest,
+			"finding_replays":          findingReplays,
 		},
 		"assumptions": assumptions,
 		"wall_s":      time.Since(t0).Seconds(),
@@ -676,4 +684,58 @@ func runSelftest(id string) map[string]interface{} {
 	out["missed"] = missed
 	fmt.Printf("SELFTEST property=%s canaries=%d detected=%d missed=%v\n", id, len(names), len(detected), missed)
 	return out
+}
+
+// findingReplays: outcome of the replay tests of repaired findings (thorough tier), for the evidence file.
+var findingReplays []map[string]string
+
+// runFindingReplays runs, for every repaired finding of this property listed in /verif/findings/index.json, its replay
+// test against the current tree (go test -overlay: nothing is written into the repository). The tests assert the
+// CORRECT behaviour, so they pass on the repaired tree; a failing one is a concrete failing input on the real code: the
+// defect is back. Returns VIOLATION lines.
+func runFindingReplays(id string) []string {
+	data, err := os.ReadFile(filepath.Join(verifDir, "findings", "index.json"))
+	if err != nil {
+		return nil
+	}
+	var idx []struct{ Finding, Property, File, Pkg, Run string }
+	if json.Unmarshal(data, &idx) != nil {
+		return nil
+	}
+	var lines []string
+	for _, e := range idx {
+		if e.Property != id {
+			continue
+		}
+		tmp, err := os.MkdirTemp("", "pvc-replay")
+		if err != nil {
+			continue
+		}
+		src := filepath.Join(verifDir, "findings", e.File)
+		ov := fmt.Sprintf("{\"Replace\":{%q:%q}}", filepath.Join(repoDir, e.Pkg, e.File), src)
+		os.WriteFile(filepath.Join(tmp, "ov.json"), []byte(ov), 0o644)
+		cmd := exec.Command("go", "test", "-overlay", filepath.Join(tmp, "ov.json"), "-vet=off", "-count=1", "-timeout", "300s", "-run", e.Run, "./"+e.Pkg+"/")
+		cmd.Dir = repoDir
+		cmd.Env = append(os.Environ(), "GOFLAGS=-mod=mod", "GOPROXY=off", "GOSUMDB=off", "GOTOOLCHAIN=local")
+		out, rerr := cmd.CombinedOutput()
+		os.RemoveAll(tmp)
+		res := map[string]string{"finding": e.Finding, "test": e.File + ":" + e.Run, "result": "pass"}
+		text := string(out)
+		switch {
+		case rerr == nil:
+		case strings.Contains(text, "--- FAIL"):
+			res["result"] = "FAIL"
+			dir := filepath.Join(verifDir, "replays")
+			os.MkdirAll(dir, 0o755)
+			path := filepath.Join(dir, fmt.Sprintf("%s_%s_replay.txt", id, e.Finding))
+			os.WriteFile(path, []byte(fmt.Sprintf("property %s: finding %s is back: its replay test fails on the current tree\nreplay: /verif/tools/replay_finding.sh %s %s %s\n\n%s\n", id, e.Finding, src, e.Pkg, e.Run, trunc(text, 6000))), 0o644)
+			lines = append(lines, fmt.Sprintf("VIOLATION property=%s replay=%s finding=%s replay test %s fails on the current tree", id, path, e.Finding, e.Run))
+		default:
+			// does not build / timed out: cannot decide, never an alarm
+			res["result"] = "not run: " + trunc(strings.TrimSpace(text), 200)
+			fmt.Printf("UNDECIDED property=%s replay test of %s did not run: %s\n", id, e.Finding, trunc(strings.TrimSpace(text), 160))
+		}
+		findingReplays = append(findingReplays, res)
+	}
+	return lines
 }
